@@ -233,3 +233,22 @@ def reset_env(range_mode=False, linalg="closed"):
     h5model.reset()
     daskmodel.set_executor()
     KINIT_LOG.clear()
+
+
+def int_constants(min_value=8, max_value=100000):
+    """integer literals >= min_value found in the analysed sources (module constants, defaults,
+    comparisons): sizes at which size-dependent code paths may switch"""
+    import ast
+
+    out = set()
+    for fn in sorted(os.listdir(SRC)):
+        if not fn.endswith(".py"):
+            continue
+        try:
+            tree = ast.parse(open(os.path.join(SRC, fn)).read())
+        except SyntaxError:
+            continue
+        for node in ast.walk(tree):
+            if isinstance(node, ast.Constant) and isinstance(node.value, int) and not isinstance(node.value, bool) and min_value <= node.value <= max_value:
+                out.add(node.value)
+    return sorted(out)
